@@ -111,6 +111,8 @@ def data_item_of(card):
     if not toks:
         return ("o",)
     head = toks[0].lstrip("*")
+    if re.match(r"^MT\d+$", head):
+        return None                       # an MT card belongs to its material: MontePy writes it after the M card
     k = None
     ps = None
     if head.startswith("IMP:"):
@@ -133,7 +135,7 @@ def describe(text):
     sp = spec.split_file(text)
     blocks = sp["blocks"] + [[]] * (3 - len(sp["blocks"]))
     cells = [cell_data_of(c) for c in blocks[0]]
-    data = [data_item_of(c) for c in blocks[2]]
+    data = [d for d in (data_item_of(c) for c in blocks[2]) if d is not None]
     mode = [0]
     for c in blocks[2]:
         t = spec.tokens(c.text)
